@@ -5,7 +5,7 @@ generated object.  Core Lean only.
 Mirrors, function by function (all in /repo/internal/cgen):
 * `writeInitializerImpl`            (cgen.go)  → `initObj`
 * `writeFuncImplSelfMagicCheck`     (func.go)  → `magicBad`, `badMagicRet`, `nullSelfRet`
-* `writeFuncImplArgChecks`          (func.go)  → `argChecks`, `argsBad`, `argFailRet`
+* `writeFuncImplArgChecks`          (func.go)  → `argsBad`, `argFailRet` (as repaired by fixes/C11-cgen-argcheck-return-type.patch)
 * `writeFuncImplPrologue`           (func.go)  → the interleaved-coroutine check in `callMethod`
 * `writeFuncImplBodySuspend`        (func.go)  → `afterBody` (`ok:` / `suspend:` labels)
 * `writeFuncImplEpilogue`           (func.go)  → `epilogue` (error ⇒ DISABLED)
@@ -243,11 +243,13 @@ def hasArgChecks (l : List ArgSpec) : Bool :=
     | .refined lo hi => lo.isSome || hi.isSome
     | .plain => false)
 
-/-- What the failing-argument branch returns (after setting DISABLED): coroutines
-`#bad argument`, everything else `wuffs_base__make_empty_struct()` ("TODO: don't assume that the
-return type is empty" in func.go). -/
+/-- What the failing-argument branch returns (after setting DISABLED): status-returning methods
+`#bad argument`, everything else the zero value of the result type (`writeOutParamZeroValue`; for
+methods without a result that is `wuffs_base__make_empty_struct()`). This is the code after the repair
+fixes/C11-cgen-argcheck-return-type.patch; before it, only coroutines returned `#bad argument` and
+every other method returned an empty struct whatever its result type. -/
 def argFailRet (m : Method) : Ret :=
-  if m.effect == .coroutine then .st (.err .badArgument) else .zero
+  if m.returnsStatus then .st (.err .badArgument) else .zero
 
 /-! ### body exit — `writeFuncImplBodySuspend`, `writeFuncImplEpilogue` -/
 
@@ -355,7 +357,7 @@ def shapeOfMethod (m : Method) (names : List String) (dvs : List DerivedVar)
   let checks := argCheckText (names.zip m.args)
   let argc := if checks.isEmpty then "args:none"
     else "args:" ++ "||".intercalate checks ++
-      (if m.effect == .coroutine then "=>disable,badarg" else "=>disable,empty")
+      (if m.returnsStatus then "=>disable,badarg" else "=>disable,zero")
   let inter := if m.effect == .coroutine
     then s!"interleave:{m.coroID}=>disable,interleaved;active=0" else "interleave:none"
   let sv := if m.hasStatusVar then "statusvar:yes" else "statusvar:no"
